@@ -20,6 +20,22 @@ PALETTE = {
 }
 
 
+def permitted_but_unknown():
+    """(parent element, child name) pairs where the parent's rule lists a child name that is no known element (C10's known findings): the
+    only way the unknown-element branch of prune is reached below a known root"""
+    from metapype.eml import rule as rule_mod
+    out = []
+    for el, rn in sorted(rule_mod.node_mappings.items()):
+        try:
+            r = rule_mod.Rule(rn)
+        except Exception:  # noqa
+            continue
+        for c in r._rule_children_names:
+            if c not in rule_mod.node_mappings and (el, c) not in out:
+                out.append((el, c))
+    return out
+
+
 def all_nodes(n):
     out = [n]
     for c in n.children:
@@ -127,13 +143,16 @@ def bounded(tier, seed):
     from metapype.model import metapype_io
     from props import native as nat
     maxn = 4 if tier == "quick" else 5
+    for el, c in permitted_but_unknown()[:2]:
+        PALETTE.setdefault("host:" + el, (el, None, {}))
+        PALETTE.setdefault("permitted-unknown:" + c, (c, None, {}))
     kinds = sorted(PALETTE)
     b = Bounded(f"all trees with <= {maxn} nodes whose root is a known element, over the palette {kinds} (valid, content error, attribute error, "
-                "misplaced known element, unknown element, metadata), in both modes; plus plantings of unknown / misplaced / invalid nodes at "
+                "misplaced known element, unknown element, child name a rule permits although it is no known element, metadata), in both modes; plus plantings of unknown / misplaced / invalid nodes at "
                 "random depths of tests/data/eml.xml")
     b.rule = "a case is (tree, mode); non-trivial = more than one node"
     rnd = random.Random(seed)
-    root_kinds = [k for k in kinds if k != "unknown"]
+    root_kinds = [k for k in kinds if k != "unknown" and not k.startswith("permitted-unknown:")]
     for n in range(1, maxn + 1):
         for shape in nat.shapes(n):
             paths = list(nat.paths_of(shape))
